@@ -196,3 +196,68 @@ fn blake2s_mac_reset_mid_message() {
     assert!(r1 == r2, "same MAC as a fresh object");
     kani::cover!(true);
 }
+
+// ---- C20: re-keying an existing context with a key longer than the algorithm allows is refused loudly (BLAKE2s: more than
+// 32 bytes, BLAKE2b: more than 64), on every re-keying path: ContextDyn::reset_with_key, finalize_reset_with_key_at, the
+// const-generic Context::reset_with_key, and the legacy objects' reset_with_key.  Key lengths one above the limit and at the
+// block size (the lengths that still fit the internal buffer); the compression function is the recorder (never reached).
+fn rekey_paths_s<const KL: usize>() {
+    let key = [7u8; KL];
+    let which: u8 = kani::any();
+    kani::assume(which < 4);
+    if which == 0 {
+        let mut c = super::blake2s::ContextDyn::new(32);
+        c.reset_with_key(&key);
+    } else if which == 1 {
+        let mut c = super::blake2s::ContextDyn::new(32);
+        let mut out = [0u8; 32];
+        c.finalize_reset_with_key_at(&key, &mut out);
+    } else if which == 2 {
+        let mut c = super::blake2s::Context::<256>::new();
+        c.reset_with_key(&key);
+    } else {
+        let mut m = Blake2s::new(32);
+        m.reset_with_key(&key);
+    }
+    kani::cover!(true);
+}
+fn rekey_paths_b<const KL: usize>() {
+    let key = [7u8; KL];
+    let which: u8 = kani::any();
+    kani::assume(which < 4);
+    if which == 0 {
+        let mut c = super::blake2b::ContextDyn::new(64);
+        c.reset_with_key(&key);
+    } else if which == 1 {
+        let mut c = super::blake2b::ContextDyn::new(64);
+        let mut out = [0u8; 64];
+        c.finalize_reset_with_key_at(&key, &mut out);
+    } else if which == 2 {
+        let mut c = super::blake2b::Context::<512>::new();
+        c.reset_with_key(&key);
+    } else {
+        let mut m = Blake2b::new(64);
+        m.reset_with_key(&key);
+    }
+    kani::cover!(true);
+}
+// @harness props=C20,C09 kind=bounded bound=keylen=33 tier=quick expect=refuse timeout=600
+#[kani::proof]
+#[kani::stub(EngineS::compress, rec_s)]
+#[kani::unwind(131)]
+fn blake2s_rekey_refuses_33_byte_key() { rekey_paths_s::<33>() }
+// @harness props=C20,C09 kind=bounded bound=keylen=64 tier=quick expect=refuse timeout=600
+#[kani::proof]
+#[kani::stub(EngineS::compress, rec_s)]
+#[kani::unwind(131)]
+fn blake2s_rekey_refuses_64_byte_key() { rekey_paths_s::<64>() }
+// @harness props=C20,C09 kind=bounded bound=keylen=65 tier=quick expect=refuse timeout=600
+#[kani::proof]
+#[kani::stub(EngineB::compress, rec_b)]
+#[kani::unwind(131)]
+fn blake2b_rekey_refuses_65_byte_key() { rekey_paths_b::<65>() }
+// @harness props=C20,C09 kind=bounded bound=keylen=128 tier=quick expect=refuse timeout=600
+#[kani::proof]
+#[kani::stub(EngineB::compress, rec_b)]
+#[kani::unwind(131)]
+fn blake2b_rekey_refuses_128_byte_key() { rekey_paths_b::<128>() }
